@@ -113,13 +113,14 @@ def handle : List String → String
       outcomeStr t.out ++ " " ++ toString t.last ++ " " ++ encLists (t.sent.map hopBytes)
         ++ " " ++ toString t.followUps ++ " " ++ toString t.authRetries
     | none => "bad-arg"
-  | "crawl" :: tries :: rest =>
-    match tries.toNat?, decSession? rest with
-    | some tries, some a =>
-      let visits := crawlOne tries a.cfg a.req (a.script.length + 2) a.script ⟨.todo, 0⟩
+  | "crawl" :: tries :: rejectAt :: rest =>
+    -- rejectAt: global indices (over all visits) of the requests-sent count at which the filters said no
+    match tries.toNat?, decList? rejectAt, decSession? rest with
+    | some tries, some rej, some a =>
+      let visits := crawlOne tries a.cfg a.req (a.script.length + 2) a.script ⟨.todo, 0⟩ rej 0
       if visits.isEmpty then "-" else
       ",".intercalate (visits.map (fun (n, rec) => toString n ++ ":" ++ statusStr rec.status ++ ":" ++ toString rec.tryCount))
-    | _, _ => "bad-arg"
+    | _, _, _ => "bad-arg"
   | _ => "bad-op"
 
 end Wpull.Request
